@@ -36,13 +36,75 @@ theorem advPos_snoc_nl (p : Nat × Nat) (cs : List Char) :
     advPos p (cs ++ ['\n']) = ((advPos p cs).1 + 1, 1) := by
   rw [advPos_append]; simp [advPos, advPos1]
 
+theorem advPos_line_eq (p : Nat × Nat) (l : List Char) : (advPos p l).1 = p.1 + l.count '\n' := by
+  induction l generalizing p with
+  | nil => simp [advPos]
+  | cons c cs ih =>
+    have := ih (advPos1 p c)
+    simp only [advPos, List.foldl_cons] at this ⊢
+    rw [this]
+    unfold advPos1
+    by_cases h : c = '\n'
+    · subst h; simp; omega
+    · by_cases h2 : c = '\t'
+      · subst h2; simp
+      · have : ¬ ('\n' = c) := fun e => h e.symm
+        simp [h, h2, List.count_cons, this]
+
+theorem advPos_col_pos (p : Nat × Nat) (l : List Char) (hp : 1 ≤ p.2) : 1 ≤ (advPos p l).2 := by
+  induction l generalizing p with
+  | nil => simpa [advPos] using hp
+  | cons c cs ih =>
+    have : 1 ≤ (advPos1 p c).2 := by
+      unfold advPos1
+      by_cases h : c = '\n'
+      · subst h; simp
+      · by_cases h2 : c = '\t'
+        · subst h2; simp; omega
+        · simp [h, h2]
+    have := ih (advPos1 p c) this
+    simpa [advPos, List.foldl_cons] using this
+
 /-! ### Follows -/
+
+/-- the first highlight of `d` is the position of one of the unread raw characters of `s`
+(`k` characters ahead), computed by the position specification -/
+def DiagAt (s : LexSt) (d : Diag) : Prop :=
+  ∃ hl tl k, d.highlights = hl :: tl ∧ k < s.rest.length ∧
+    (hl.line, hl.col) = advPos (s.line, s.col) (s.rest.take k)
+
+theorem DiagAt.hasHl {s : LexSt} {d : Diag} (h : DiagAt s d) : HasHl d := by
+  obtain ⟨hl, tl, k, h1, _, _⟩ := h
+  unfold HasHl; rw [h1]; simp
 
 /-- `t` is reached from `s` by consuming exactly `n` raw characters. -/
 def FollowsN (n : Nat) (s t : LexSt) : Prop :=
   n ≤ s.rest.length ∧ t.rest = s.rest.drop n ∧ t.pos = s.pos + n ∧
   (t.line, t.col) = advPos (s.line, s.col) (s.rest.take n) ∧
-  ∃ ds, t.diags = s.diags ++ ds ∧ ∀ d ∈ ds, HasHl d
+  ∃ ds, t.diags = s.diags ++ ds ∧ ∀ d ∈ ds, DiagAt s d
+
+theorem DiagAt.of_follows {n : Nat} {s t : LexSt} {d : Diag}
+    (h1 : n ≤ s.rest.length) (h2 : t.rest = s.rest.drop n)
+    (h4 : (t.line, t.col) = advPos (s.line, s.col) (s.rest.take n)) (h : DiagAt t d) : DiagAt s d := by
+  obtain ⟨hl, tl, k, e1, e2, e3⟩ := h
+  rw [h2] at e2 e3
+  simp only [List.length_drop] at e2
+  refine ⟨hl, tl, n + k, e1, by omega, ?_⟩
+  rw [e3, h4, ← advPos_append, List.take_add]
+
+/-- a diagnostic at the very position of `s` (which still has a character to read) -/
+theorem DiagAt.here {s : LexSt} {d : Diag} {hl : Highlight} {tl : List Highlight}
+    (hd : d.highlights = hl :: tl) (hne : 0 < s.rest.length) (hp : (hl.line, hl.col) = (s.line, s.col)) :
+    DiagAt s d :=
+  ⟨hl, tl, 0, hd, hne, by simpa [advPos] using hp⟩
+
+/-- a diagnostic `k` clean characters ahead of `s` -/
+theorem DiagAt.ahead {s : LexSt} {d : Diag} {hl : Highlight} {tl : List Highlight} (k : Nat)
+    (hd : d.highlights = hl :: tl) (hk : k < s.rest.length) (hc : Clean (s.rest.take k))
+    (hp : (hl.line, hl.col) = (s.line, s.col + k)) : DiagAt s d := by
+  refine ⟨hl, tl, k, hd, hk, ?_⟩
+  rw [advPos_clean _ _ hc, hp]
+  simp [List.length_take, Nat.min_eq_left (Nat.le_of_lt hk)]
 
 def Follows (s t : LexSt) : Prop := ∃ n, FollowsN n s t
 def Progress (s t : LexSt) : Prop := ∃ n, 0 < n ∧ FollowsN n s t
@@ -66,7 +128,7 @@ theorem FollowsN.trans {n m : Nat} {s t u : LexSt} (h1 : FollowsN n s t) (h2 : F
   · intro d hd
     rcases List.mem_append.mp hd with h | h
     · exact a6 d h
-    · exact b6 d h
+    · exact DiagAt.of_follows a1 a2 a4 (b6 d h)
 
 theorem Follows.refl (s : LexSt) : Follows s s := ⟨0, FollowsN.refl s⟩
 theorem Follows.trans {s t u : LexSt} (h1 : Follows s t) (h2 : Follows t u) : Follows s u := by
@@ -78,17 +140,83 @@ theorem Progress.trans_follows {s t u : LexSt} (h1 : Progress s t) (h2 : Follows
 theorem Follows.trans_progress {s t u : LexSt} (h1 : Follows s t) (h2 : Progress t u) : Progress s u := by
   obtain ⟨n, h1⟩ := h1; obtain ⟨m, hm, h2⟩ := h2; exact ⟨n + m, by omega, h1.trans h2⟩
 
-theorem follows_addDiag (s : LexSt) (d : Diag) (h : HasHl d) : FollowsN 0 s (s.addDiag d) :=
+theorem follows_addDiag (s : LexSt) (d : Diag) (h : DiagAt s d) : FollowsN 0 s (s.addDiag d) :=
   ⟨Nat.zero_le _, by simp [LexSt.addDiag], by simp [LexSt.addDiag], by simp [LexSt.addDiag, advPos],
    [d], by simp [LexSt.addDiag], by simpa using h⟩
 
-theorem follows_addDiags (s : LexSt) (ds : List Diag) (h : ∀ d ∈ ds, HasHl d) :
+theorem follows_addDiags (s : LexSt) (ds : List Diag) (h : ∀ d ∈ ds, DiagAt s d) :
     FollowsN 0 s { s with diags := s.diags ++ ds } :=
   ⟨Nat.zero_le _, by simp, by simp, by simp [advPos], ds, rfl, h⟩
+
+/-- a diagnostic placed relative to the state the step started from -/
+theorem FollowsN.addDiag {n : Nat} {s t : LexSt} {d : Diag} (h : FollowsN n s t) (hd : DiagAt s d) :
+    FollowsN n s (t.addDiag d) := by
+  obtain ⟨a1, a2, a3, a4, ds, a5, a6⟩ := h
+  refine ⟨a1, by simpa [LexSt.addDiag] using a2, by simpa [LexSt.addDiag] using a3,
+    by simpa [LexSt.addDiag] using a4, ds ++ [d], by simp [LexSt.addDiag, a5], ?_⟩
+  intro x hx
+  rcases List.mem_append.mp hx with h | h
+  · exact a6 x h
+  · simp at h; subst h; exact hd
+
+theorem FollowsN.addDiags {n : Nat} {s t : LexSt} {es : List Diag} (h : FollowsN n s t) (hd : ∀ d ∈ es, DiagAt s d) :
+    FollowsN n s { t with diags := t.diags ++ es } := by
+  obtain ⟨a1, a2, a3, a4, ds, a5, a6⟩ := h
+  refine ⟨a1, a2, a3, a4, ds ++ es, by simp [a5], ?_⟩
+  intro x hx
+  rcases List.mem_append.mp hx with h | h
+  · exact a6 x h
+  · exact hd x h
+
+theorem Follows.addDiag {s t : LexSt} {d : Diag} (h : Follows s t) (hd : DiagAt s d) : Follows s (t.addDiag d) := by
+  obtain ⟨n, h⟩ := h; exact ⟨n, h.addDiag hd⟩
+theorem Progress.addDiag {s t : LexSt} {d : Diag} (h : Progress s t) (hd : DiagAt s d) : Progress s (t.addDiag d) := by
+  obtain ⟨n, hn, h⟩ := h; exact ⟨n, hn, h.addDiag hd⟩
+theorem Follows.addDiags {s t : LexSt} {es : List Diag} (h : Follows s t) (hd : ∀ d ∈ es, DiagAt s d) :
+    Follows s { t with diags := t.diags ++ es } := by
+  obtain ⟨n, h⟩ := h; exact ⟨n, h.addDiags hd⟩
+theorem Progress.addDiags {s t : LexSt} {es : List Diag} (h : Progress s t) (hd : ∀ d ∈ es, DiagAt s d) :
+    Progress s { t with diags := t.diags ++ es } := by
+  obtain ⟨n, hn, h⟩ := h; exact ⟨n, hn, h.addDiags hd⟩
+
+/-! ### position-only steps (no claim about the diagnostics added) -/
+
+def MovesN (n : Nat) (s t : LexSt) : Prop :=
+  n ≤ s.rest.length ∧ t.rest = s.rest.drop n ∧ t.pos = s.pos + n ∧
+  (t.line, t.col) = advPos (s.line, s.col) (s.rest.take n)
+def Moves (s t : LexSt) : Prop := ∃ n, MovesN n s t
+
+theorem FollowsN.moves {n : Nat} {s t : LexSt} (h : FollowsN n s t) : MovesN n s t :=
+  ⟨h.1, h.2.1, h.2.2.1, h.2.2.2.1⟩
+theorem Follows.moves {s t : LexSt} (h : Follows s t) : Moves s t := by
+  obtain ⟨n, h⟩ := h; exact ⟨n, h.moves⟩
+theorem Moves.refl (s : LexSt) : Moves s s := (Follows.refl s).moves
+
+theorem MovesN.trans {n m : Nat} {s t u : LexSt} (h1 : MovesN n s t) (h2 : MovesN m t u) : MovesN (n + m) s u := by
+  obtain ⟨a1, a2, a3, a4⟩ := h1
+  obtain ⟨b1, b2, b3, b4⟩ := h2
+  rw [a2] at b1 b2 b4
+  simp only [List.length_drop] at b1
+  refine ⟨by omega, ?_, by omega, ?_⟩
+  · rw [b2, List.drop_drop]
+  · rw [b4]
+    have : s.rest.take (n + m) = s.rest.take n ++ (s.rest.drop n).take m := by
+      rw [List.take_add]
+    rw [this, advPos_append, a4]
+theorem Moves.trans {s t u : LexSt} (h1 : Moves s t) (h2 : Moves t u) : Moves s u := by
+  obtain ⟨n, h1⟩ := h1; obtain ⟨m, h2⟩ := h2; exact ⟨n + m, h1.trans h2⟩
+theorem Moves.addDiag {s t : LexSt} (h : Moves s t) (d : Diag) : Moves s (t.addDiag d) := by
+  obtain ⟨n, a1, a2, a3, a4⟩ := h
+  exact ⟨n, a1, by simpa [LexSt.addDiag] using a2, by simpa [LexSt.addDiag] using a3, by simpa [LexSt.addDiag] using a4⟩
+theorem MovesN.pos_sub {n : Nat} {s t : LexSt} (h : MovesN n s t) : t.pos - s.pos = n := by
+  obtain ⟨_, _, h3, _⟩ := h; omega
 
 theorem hasHl_mkDiag (name : String) (lvl : Level) (h : Highlight) (hs : List Highlight) :
     HasHl (mkDiag name lvl (h :: hs)) := by
   simp [HasHl, mkDiag]
+
+theorem mkDiag_highlights (name : String) (lvl : Level) (hs : List Highlight) :
+    (mkDiag name lvl hs).highlights = hs := rfl
 
 /-- consuming `n` clean characters (no newline, no tab): the column moves by `n` -/
 theorem follows_clean (s : LexSt) (n : Nat) (hn : n ≤ s.rest.length) (hc : Clean (s.rest.take n)) :
